@@ -80,7 +80,8 @@ bool MPSInput::readLine()
       // Read until we have a non-empty, non-comment line.
       do
       {
-         if(!m_input.getline(m_buf, sizeof(m_buf)).good() && !m_input.eof())
+         // fails at the end of the file as well (a last line without newline only sets eofbit and is still processed)
+         if(m_input.getline(m_buf, sizeof(m_buf)).fail())
             return false;
 
          m_lineno++;
